@@ -18,7 +18,7 @@ META = {
     'property_id': 'C03',
     'technique': 'Lean 4 theorems (induction over arbitrary instruction lists) about a transcription of fixBlock/fixIns/checkJumpBetween/fixOriginFuncToTrampoline built on the EncodeAddress/DecodeAddress/opExpand and jump emitters regenerated from the Go source; differential run of the model against the real relocation code on every function of a test binary and a generated zoo; executed layer through the public API',
     'level': 'proof',
-    'level_text': 'Proof of the relocation arithmetic (theorem C03.reloc_faithful and companions): for every instruction list meeting the stated decoder contract, every origin/placeholder pair less than 2^31-2^21 apart whose PC-relative targets stay encodable, and copied length n <= 2^18, a successful relocation copies whole instructions covering >= 13 bytes, keeps every byte that is not the PC-relative field (opcode modulo the proved short->near map, ModRM, trailing immediates), keeps every absolute target outside the copied prefix, maps the branch-to-entry to the copy, ends in a jump that lands on origin+n, and no instruction of the function branches into (0,n); a failure writes nothing. PARTIAL for stack growth: the no-re-entry clause is proved only under the explicit hypothesis that no instruction outside the copied prefix branches to the entry (false for every Go function with a stack check: known finding F4), and the absolute jump-back form (F5) is excluded by the distance hypothesis.',
+    'level_text': 'Proof of the relocation arithmetic (theorem C03.reloc_faithful and companions): for every instruction list meeting the stated decoder contract, every origin/placeholder pair less than 2^31-2^21 apart whose PC-relative targets stay encodable, and copied length n <= 2^18, a successful relocation copies whole instructions covering >= 13 bytes, keeps every byte that is not the PC-relative field (opcode modulo the proved short->near map, ModRM, trailing immediates), keeps every absolute target outside the copied prefix, maps the branch-to-entry to the copy, ends in a jump that lands on origin+n, and no instruction of the function branches into (0,n); a failure writes nothing. PARTIAL for stack growth: the no-re-entry clause is proved only under the explicit hypothesis that no instruction outside the copied prefix branches to the entry (false for every Go function with a stack check: known finding F4), and the absolute jump-back form (F5) is excluded by the distance hypothesis (relative_of_near derives the relative form from it). Recorded defects kept visible as known findings: F27 whole-function copy writes raw bytes, F28 `00 00` dropped (contract clause WF.opnz), F29 failed re-mock removes the earlier mock, F30 generic functions.',
     'level_note': 'Trusted: Lean kernel (propext, Classical.choice, Quot.sound), tools/gen translator for addr.go/monkey_amd64.go (cross-checked on every evaluation), the hand transcription Model/Reloc.lean (tied to the code by differential execution on the instruction lists goom\'s own decoder produces: all functions of the probe binary x 4-8 placeholder positions + zoo), the decoder contract (property C16; additionally assumed: no instruction whose Opcode field is 0, i.e. the byte pair 00 00, inside the copied prefix — goom skips it), X86Mini semantics of JMP rel32. Not modelled: runtime.morestack / stack copying, unwinding through the placeholder, CreateFuncForCodePtr (executed layer only).',
 }
 
@@ -543,6 +543,9 @@ def run(tier):
         if model is not None and model[k] != res:
             diffs.append((k, op, res, model[k], 'streams differ'))
 
+    for lane, floor in (('fns', 1000), ('zoo', 500), ('small', 300), ('tramp', 1000)):
+        if stats[lane] < floor:
+            raise C.Infra(f'lane {lane} produced only {stats[lane]} cases (floor {floor}): the probe silently ran (almost) nothing')
     # 1. the property on the implementation
     seen = set()
     for k, op, r, v, m in bad:
